@@ -56,7 +56,7 @@ def candidates(file_filter):
                     continue
                 code = line.split('//')[0]
                 st = code.strip()
-                if not st or st.startswith(('#', 'use ', '///', '//!', 'pub use', 'mod ', 'pub mod')) or 'verif_hooks' in code or 'verif-hooks' in code:
+                if not st or st.startswith(('#', 'use ', '///', '//!', 'pub use', 'mod ', 'pub mod')) or 'verif_hooks' in code or 'verif-hooks' in code or rel.endswith('verif_hooks.rs'):
                     continue
                 for k, (pat, rep) in enumerate(OPS):
                     for m in re.finditer(pat, code):
